@@ -54,6 +54,7 @@ type Global struct {
 func loadAll(repo, verifDir string) (*Global, error) {
 	g := &Global{pkgs: map[string]*packages.Package{}, funcs: map[string]*FuncInfo{}, funcByObj: map[*types.Func]*FuncInfo{}, tableByFn: map[string]*TableFunc{}, repo: repo, verifDir: verifDir, contractSource: map[string]string{}}
 	g.fset = token.NewFileSet()
+	readJSON(filepath.Join(verifDir, "solver_hints.json"), &solverHints)
 	readJSON(filepath.Join(verifDir, "locals.lock.json"), &g.lockedLocals)
 	readJSON(filepath.Join(verifDir, "anchors.lock.json"), &g.lockedAnchors)
 	g.renameCache = map[string]map[string]types.Object{}
